@@ -7,10 +7,10 @@ from .. import lifecycle as L
 from .. import liferun
 
 
-def lifecycle_part(rep, a, tags, quick, thorough, devs, quick_paths=24, maxlen=12, trace_worlds=None, trace_num=8):
+def lifecycle_part(rep, a, tags, quick, thorough, devs, quick_paths=24, maxlen=12, trace_worlds=None, trace_num=8, tlc_kw=None):
     th = rep.tier == "thorough"
     worlds = thorough if th else quick
-    findings = liferun.run(rep, worlds, max_paths=None if th else quick_paths, maxlen=maxlen, seed=rep.seed, procs=a.procs)
+    findings = liferun.run(rep, worlds, max_paths=None if th else quick_paths, maxlen=maxlen, seed=rep.seed, procs=a.procs, tlc_kw=tlc_kw)
     if trace_worlds:
         # direction B: behaviours simulated by TLC (longer than the covering paths) are executed, recorded and
         # validated by TLC against the specification (TraceLife)
